@@ -13,7 +13,7 @@ REAL = ["train_* routines", "soft_target_net_update / hard_target_net_update", "
 STUB = ["environment (SimEnv)", "sampler", "logger (ProbeLogger)"]
 ASSUMPTIONS = ["targets created inside a routine are observable from their first record_epoch; earlier only frame conditions on harness-held modules apply",
                "float32 Polyak recomputation agrees with the library to 4e-6 relative"]
-TIERS = {"quick": {"runs": 70}, "thorough": {"runs": 1500}}
+TIERS = {"quick": {"runs": 126}, "thorough": {"runs": 2000}}
 REQUIRED = ["soft_updates_checked", "hard_updates_checked", "tau_0", "tau_1", "online_unchanged_by_target_update", "module_primitive_updates"]
 REQUIRED_QUICK = ["soft_updates_checked", "hard_updates_checked"]
 CHUNK = 24  # TrainSim plans per fresh worker process
